@@ -35,7 +35,22 @@ def worker(args):
     return k
 
 
+def report(outdir):
+    """summary: a stored seed counts as a regression when a check that its meta.json records as detecting it now exits 0"""
+    rs = [json.loads(l) for l in open(f"{outdir}/results.jsonl")]
+    bad = 0
+    for r in rs:
+        note = json.load(open(f"/verif/seeded/{r['seed']}/meta.json"))["checks"][r["property"]]
+        expected_miss = note.startswith("MISSED") or note.startswith("not run")
+        if r["rc"] != 1 and not expected_miss:
+            bad += 1
+            print("REGRESSION", r)
+    print(f"{len(rs)} (seed, check) pairs re-run, {sum(r['rc'] == 1 for r in rs)} VIOLATION, {bad} regressions")
+
+
 if __name__ == "__main__":
+    if sys.argv[1] == "report":
+        report(sys.argv[2]); sys.exit(0)
     workers, outdir = int(sys.argv[1]), sys.argv[2]
     flt = sys.argv[3] if len(sys.argv) > 3 else ""
     os.makedirs(outdir, exist_ok=True)
